@@ -276,6 +276,9 @@ class Bunch:
 def prepare_dist(dist):
     if not isinstance(dist._sample_space, dit.samplespace.CartesianProduct):
         dist = dit.expanded_samplespace(dist, union=True)
+    else:
+        # Never densify or re-base the caller's object.
+        dist = dist.copy()
 
     if not dist.is_dense():
         if len(dist._sample_space) > 1e4:  # pragma: no cover
